@@ -53,10 +53,15 @@ Definition c16_sensor_run (n m : nat) (H LR : lmx S) (st : @sim_state O n) (zs :
   : list (bool * option (lmx S)) :=
   fst (@sensor_run O n m H LR (@mkSens O n m st zs None) ops).
 
+(* (input_description_, measurement_description_) of a SimulatedLinearSensor over a state model
+   with [lin] linear components, R having [nr] rows *)
+Definition c16_sensor_descs (m n : nat) (H : lmx S) (lin nr : nat) : vdesc * vdesc :=
+  @sensor_descriptions O m n H (mkDesc lin 0 0) nr.
+
 Definition c16_grid (xinf xsup yinf ysup : T S) (nx ny np : nat) (st w : lmx S) : option (lmx S * lmx S) :=
   @grid_initialize O xinf xsup yinf ysup nx ny np st w.
 End E.
 
 Extraction "C16_model.ml" c16_wna_F c16_wna_Q c16_wna_sqrtQ c16_wna_noise c16_wna_motion c16_wna_tp c16_spec_tp
   c16_LLt c16_lti_state c16_lti_meas c16_linear_model c16_noise c16_sim_ctor c16_sim_target c16_sim_run
-  c16_sensor_run c16_grid.
+  c16_sensor_run c16_sensor_descs desc_total c16_grid.
